@@ -121,7 +121,8 @@ func (nfc *NestedFieldCache) prefixMatch(prefix string, fieldPaths search.FieldS
 	common = true
 	any = false
 	for path := range fieldPaths {
-		has := strings.HasPrefix(path, prefix)
+		// the prefix has to end at a path separator, "loc" is not a prefix of "locs.city"
+		has := path == prefix || strings.HasPrefix(path, prefix+".")
 		if has {
 			any = true
 		} else {
